@@ -209,16 +209,29 @@ Qed.
 
 (** ** EConnect *)
 
-Lemma track_connect_ok X cfg s t sid : TR X cfg s t →
+Lemma track_connect_ok X cfg i s t sid :
+  sid ∉ st_used s → st_sessions s !! sid = None → sid ∉ w_sid <$> st_waiters s → TR X cfg s t →
   TR X cfg (match st_sessions s !! sid with
             | Some _ => s
             | None => s <| st_sessions := <[sid := []]> (st_sessions s) |>
-            end <| st_used := sid :: st_used s |>) t.
+            end <| st_used := sid :: st_used s |>) (track_step0 cfg i (EConnect sid) [] t).
 Proof.
-  intros [H1 H2 H3 H4 H5]. destruct (st_sessions s !! sid) as [l|] eqn:E; split; simpl; try done.
-  eapply HR_change; [exact H3|..]; try done.
-  - intros h Hh. by apply (hr_tab _ _ _ _ _ _ H3).
-  - intros c Hc. right. split; [done|apply not_elem_of_nil].
-  - intros h l Hh Hs Hc. rewrite lookup_insert_ne; [eauto|]. intros Es. rewrite Es in E. congruence.
-  - by intros n k ?%elem_of_nil.
+  intros Hu Hs Hw [H1 H2 H3 H4 (K1 & K2 & K3) H6]. rewrite Hs. simpl.
+  rewrite flag_true.
+  2:{ apply negb_true_iff, orb_false_iff. split; [apply orb_false_iff; split|]; apply bool_decide_eq_false.
+      - intros Hin. by apply Hu, K2.
+      - intros (h' & Eh & Hh%elem_of_list_In)%elem_of_list_In%in_map_iff.
+        destruct (hr_sid _ _ _ _ _ _ H3 h' Hh) as (l & Hl & _). congruence.
+      - intros (tw & <- & Htw%elem_of_list_In)%elem_of_list_In%in_map_iff.
+        destruct (Forall2_elem_r _ _ _ _ H4 Htw) as (w & Hw' & (_ & _ & Es & _)). apply Hw. rewrite Es. apply elem_of_list_fmap. eauto. }
+  split; simpl; try done.
+  - eapply HR_change; [exact H3|..]; try done.
+    + intros h Hh. by apply (hr_tab _ _ _ _ _ _ H3).
+    + intros c Hc. right. split; [done|apply not_elem_of_nil].
+    + intros h l Hh Hsl Hc. rewrite lookup_insert_ne; [eauto|]. intros Es. rewrite Es in Hs. congruence.
+    + by intros n k ?%elem_of_nil.
+  - split_and!; simpl.
+    + intros k Hk. right. by apply K1.
+    + intros x [->|Hx]%elem_of_cons; [left|right; by apply K2].
+    + done.
 Qed.
